@@ -170,6 +170,14 @@ func runShard(m *meta, p part, shard int, tier string, seed int64, budget int, r
 		if replayPath != "" {
 			cmd.Env = append(cmd.Env, "VERIF_REPLAY="+replayPath)
 		}
+		if p.Bin == "race" {
+			rl := base + ".racelog"
+			old, _ := filepath.Glob(rl + "*")
+			for _, f := range old {
+				_ = os.Remove(f)
+			}
+			cmd.Env = append(cmd.Env, "GORACE=halt_on_error=0 exitcode=0 log_path="+rl, "VERIF_RACELOG="+rl)
+		}
 		var stderr, stdout bytes.Buffer
 		cmd.Stdout = &stdout
 		cmd.Stderr = &stderr
@@ -178,6 +186,9 @@ func runShard(m *meta, p part, shard int, tier string, seed int64, budget int, r
 		var r fw.Result
 		b, rerr := os.ReadFile(outFile)
 		haveRes := rerr == nil && json.Unmarshal(b, &r) == nil
+		if err != nil && haveRes && p.Bin == "race" && strings.Contains(stdout.String()+stderr.String(), "race detected during execution of test") && !strings.Contains(stdout.String()+stderr.String(), "panic: ") {
+			err = nil // the race reports were already converted into violations by the worker
+		}
 		if err == nil && haveRes {
 			if attempt > 0 {
 				r.Exhaustive = false // cases that crash the process were skipped
@@ -240,8 +251,14 @@ func runShard(m *meta, p part, shard int, tier string, seed int64, budget int, r
 }
 
 func gomaxprocs(p part) string {
-	if p.Bin == "sched" || p.Bin == "syn" {
+	if p.Bin == "sched" {
+		return "1"
+	}
+	if p.Bin == "syn" {
 		return "2"
+	}
+	if p.Bin == "race" {
+		return "8"
 	}
 	if p.Shards >= 8 {
 		return "2"
@@ -435,6 +452,7 @@ func check(id, tier string) int {
 	// 3. merge
 	findings := loadFindings()
 	clauses := map[string]any{}
+	var racePass map[string]any
 	var total *fw.Result
 	var primary *fw.Result
 	type vrec struct {
@@ -494,6 +512,12 @@ func check(id, tier string) int {
 		clauses[x.p.Name] = cl
 		if x.p.Name == m.Primary {
 			primary = acc
+		}
+		if x.p.Bin == "race" {
+			// the free-running -race pass is sampling: reported on its own, never part of the
+			// exhaustive counts
+			racePass = map[string]any{"iterations": acc.Counters["race_pass_iterations"], "race_reports": len(acc.Violations), "mode": "free-running, uninstrumented, -race, sampling"}
+			continue
 		}
 		if total == nil {
 			c := *acc
@@ -583,6 +607,9 @@ func check(id, tier string) int {
 		cov["transitions"] = src.Counters["transitions"]
 		cov["traces_validated_against_impl"] = src.Counters["schedules"]
 		cov["schedules"] = src.Counters["schedules"]
+	}
+	if racePass != nil {
+		cov["race_pass"] = racePass
 	}
 	if len(knownHit) > 0 {
 		cov["known_findings_reproduced"] = knownHit
